@@ -1007,6 +1007,8 @@ func main() {
 				extBlockOps(&sb, *repo, it) // ext_blockops.go
 			case "ctxflow":
 				extCtxFlow(&sb, *repo, it) // ext_blockops.go
+			case "forbound":
+				extForBound(&sb, *repo, it, pc) // ext_blockops.go
 			case "switchtable":
 				extSwitchTable(&sb, *repo, it, pc) // ext_switch.go
 			default:
